@@ -177,7 +177,7 @@ func planC08(w *World, spec RunSpec) {
 	w.drawFaultMix("err-before", "lost-response", "crash", "compaction", "duplicate")
 	w.Cfg.Faults["drift"] = true
 	w.Cfg.Ndist = 150 + s.Intn(600, "ndist")
-	w.Scenario = GenOD(w, ODProfile{MaxEdits: 5, Limits: true, NeverReady: !s.Chance(1, 4, "all-ready"), Delegation: s.Chance(1, 4, "delegation")})
+	w.Scenario = GenOD(w, ODProfile{MaxEdits: 5, Limits: true, NeverReady: !s.Chance(1, 4, "all-ready"), Delegation: s.Chance(1, 4, "delegation"), FinalDelete: true})
 	w.StartProcesses()
 	w.Disturb(w.Cfg.Ndist)
 	w.finish()
